@@ -1,5 +1,6 @@
 """C04 -- the verdict of a run, and its diagnosis, are exactly determined by what happened"""
-from env.scenario import Profile
+from runner import Harness
+from env.scenario import Profile, build, execute, redraw_for_rerun, TEMPLATES
 from props.common import scenario_harness
 from props import oracles as O
 
@@ -8,6 +9,27 @@ OUTSIDE = ["more than 4 atomic jobs", "depth > 3", "why() text beyond its leadin
 ASSUMPTIONS = ["where the statement does not say who wins a same-instant tie (completion exactly on the deadline, "
                "critical failure in the instant of the last completion) either verdict is accepted, but verdict, "
                "exception identity and diagnosis accessors must be mutually consistent"]
+
+
+def rerun_harness(name, prof, tname):
+    """the same scheduler object is run twice (no requirement edges: re-running a scheduler that has some is
+    outside every claim, see DESIGN section 8): verdict and diagnosis of the second run must be determined by
+    the second run alone"""
+    def fn(api):
+        run = build(api, prof, tname)
+        execute(run)
+        if run.outcome[0] not in ("ret", "exc"):
+            api.assume(False)
+        first = repr(run.outcome)
+        redraw_for_rerun(api, run)
+        execute(run)
+        api.note("c04_reruns")
+        O.c04_verdict(api, run)
+        O.c02_exactly_once(api, run)
+        api.sample({"template": tname, "first_run": first, "second_run_events": run.dump()[:30]})
+    bounds = {"templates": {tname: TEMPLATES[tname]}, "runs_of_the_same_object": 2}
+    bounds.update(prof.describe())
+    return Harness(name, fn, bounds=bounds, free=[k for k, v in prof.describe().items() if v in ("free", "always")])
 
 
 def harnesses(tier):
@@ -28,6 +50,9 @@ def harnesses(tier):
                 templates=("N11", "N12", "D3"), raises="free", crit_job="free", crit_sched="free",
                 timeout="free", timeout_scope="nested", top="sched", top_crit="free", perm="id",
                 edges="none"), o, required_notes=req),
+            rerun_harness("rerun-flat2", Profile(
+                raises="free", crit_job=True, timeout="free", top="sched", top_crit="free", perm="id",
+                edges="none", kind="vjob"), "F2"),
         ]
     return [
         scenario_harness("flat3-all-ties", Profile(
